@@ -312,7 +312,7 @@ class n0xml:
     ) -> typing.Union[str, None]:
         found = self.findall(xpath, [], find_first=True)
         if found:
-            return f"/{'/'.join(found[0])}"
+            return f"/{'/'.join(found[0][0])}"
         else:
             return None
 
